@@ -94,26 +94,31 @@ def _gauss(x):
 # resuming from it must reproduce the uninterrupted run. The bound-insertion
 # criterion is driven by n_like_new_bound here (the tests only exercise
 # n_update).
-for (nlive, nlnb) in ((100, 100), (120, 300)):
+for (nlive, nlnb, disc) in ((100, 100, False), (120, 300, False),
+                            (120, 1200, True)):
     kw = dict(n_dim=2, n_live=nlive, n_like_new_bound=nlnb, n_networks=0,
               seed=5)
+    RUNKW = dict(n_eff=400, verbose=False, discard_exploration=disc)
     ref_s = Sampler(SCN.prior, _gauss, **kw)
-    ref_s.run(n_eff=400, verbose=False)
+    ref_s.run(**RUNKW)
     ref = result(ref_s)
     with tempfile.TemporaryDirectory() as d:
         path = os.path.join(d, 'k.h5')
         s1 = Sampler(SCN.prior, _gauss, filepath=path, **kw)
         snaps = []
+        phase = []
         orig = s1.evaluate_likelihood
 
-        def spy(points, orig=orig, snaps=snaps, path=path, d=d):
+        def spy(points, orig=orig, snaps=snaps, path=path, d=d, s1=s1,
+                phase=phase):
             if os.path.exists(path):
                 c = os.path.join(d, 'snap{}.h5'.format(len(snaps)))
                 shutil.copyfile(path, c)
                 snaps.append(c)
+                phase.append(bool(s1.explored))
             return orig(points)
         s1.evaluate_likelihood = spy
-        s1.run(n_eff=400, verbose=False)
+        s1.run(**RUNKW)
         if not same(ref, result(s1)):
             bad.append(dict(scenario='kill-in-batch', what='checkpointed run '
                             'differs from the run without a file'))
@@ -123,26 +128,31 @@ for (nlive, nlnb) in ((100, 100), (120, 300)):
                 1, nb - 1, nstops).astype(int)))):
             sp = os.path.join(d, 's{}.h5'.format(k))
             a = Sampler(SCN.prior, _gauss, filepath=sp, **kw)
-            a.run(n_eff=400, n_like_max=k * 100, verbose=False)
+            a.run(n_like_max=k * 100, **RUNKW)
             del a
             b = Sampler(SCN.prior, _gauss, filepath=sp, resume=True,
                         **dict(kw, seed=4))
-            b.run(n_eff=400, verbose=False)
+            b.run(**RUNKW)
             if not same(ref, result(b)):
                 bad.append(dict(scenario='stop after {} batches, n_live={} '
                                 'n_like_new_bound={}'.format(k, nlive, nlnb),
                                 what='resumed run differs from the '
                                 'uninterrupted run'))
                 break
-        pick = sorted(set(np.linspace(0, len(snaps) - 1, 2 * nstops)
-                          .astype(int))) if snaps else []
+        pick = set(np.linspace(0, len(snaps) - 1, 2 * nstops).astype(int)) \
+            if snaps else set()
+        if True in phase:
+            # the batches around the end of the exploration phase
+            k0 = phase.index(True)
+            pick |= {k for k in (k0 - 1, k0, k0 + 1) if 0 <= k < len(snaps)}
+        pick = sorted(pick)
         for k in pick:
             rp = os.path.join(d, 'r.h5')
             shutil.copyfile(snaps[k], rp)
             try:
                 s2 = Sampler(SCN.prior, _gauss, filepath=rp, resume=True,
                              **dict(kw, seed=999))
-                s2.run(n_eff=400, verbose=False)
+                s2.run(**RUNKW)
                 ok = same(ref, result(s2))
                 what = 'run resumed from the checkpoint on disk during ' \
                     'batch {} differs from the uninterrupted run'.format(k + 2)
@@ -150,7 +160,7 @@ for (nlive, nlnb) in ((100, 100), (120, 300)):
                 ok, what = False, 'resume raised ' + type(e).__name__
             if not ok:
                 bad.append(dict(scenario='kill-in-batch n_live={} '
-                                'n_like_new_bound={}'.format(nlive, nlnb),
+                                'n_like_new_bound={} discard={}'.format(nlive, nlnb, disc),
                                 what=what))
                 break
 
